@@ -60,8 +60,9 @@ type hist struct {
 	desc map[string]interface{}
 
 	phantom    map[string]crypto.PrivKey
-	lcaVerdict map[string]lcaInfo // by hash of the evidence bytes
-	dveMemo    map[string]lcaInfo // reference verdicts already computed (decided heights only)
+	lcaVerdict map[string]lcaInfo          // by hash of the evidence bytes
+	wire       map[types.Evidence]*wireMut // hostile encoder attached to an item (wire.go)
+	dveMemo    map[string]lcaInfo          // reference verdicts already computed (decided heights only)
 
 	// model
 	committed   map[string]int64  // evidence hash -> height of the block that carried it
@@ -118,7 +119,10 @@ func (h *hist) violation(key, what string, extra map[string]interface{}) {
 }
 
 // gate: the way a peer or a block delivers evidence.
-func gate(ev types.Evidence) (out types.Evidence, err error) {
+func gate(ev types.Evidence) (types.Evidence, error) { return gateWith(ev, nil) }
+
+// gateWith: as gate, with the sender rewriting uncovered fields of the message.
+func gateWith(ev types.Evidence, m *wireMut) (out types.Evidence, err error) {
 	defer func() {
 		if r := recover(); r != nil {
 			out, err = nil, fmt.Errorf("panic in protobuf round trip: %v", r)
@@ -128,6 +132,7 @@ func gate(ev types.Evidence) (out types.Evidence, err error) {
 	if err != nil {
 		return nil, err
 	}
+	m.apply(pb)
 	bz, err := pb.Marshal()
 	if err != nil {
 		return nil, err
@@ -343,9 +348,7 @@ func (h *hist) judgeList(list []types.Evidence) listVerdict {
 			v.mayAdd[k] = true
 		}
 		if walking {
-			if l, is := ev.(*types.LightClientAttackEvidence); is && len(l.ByzantineValidators) == 0 {
-				walking = false // known: amnesia evidence never verifies after protobuf decoding
-			} else if isLCA || !pendingNow[k] {
+			if isLCA || !pendingNow[k] {
 				if class != "" && class != "duplicate" {
 					walking = false
 				} else if pendingNow[k] {
@@ -424,18 +427,41 @@ func (h *hist) opAdd(raw types.Evidence, label string) {
 	_, wasPending := h.prev[k]
 	want := ok && fresh && isNew
 	h.cur = fmt.Sprintf("AddEvidence(%s %s) at height %d", label, evDesc(raw), h.ch.Height())
-	wire, gerr := gate(raw)
-	if h.r.Intn(5) == 0 {
+	wm := h.wire[raw]
+	var wire types.Evidence
+	var gerr error
+	switch {
+	case wm != nil:
+		label += "/wire:" + wm.name
+		h.cur += " re-encoded with " + wm.name
+		wire, gerr = gateWith(raw, wm)
+		h.countWire(wm, gerr)
+		if gerr == nil {
+			h.adoptVerdict(raw, wire)
+		}
+	case h.r.Intn(5) == 0:
 		label += "/rpc"
 		h.cur += " via JSON"
 		wire, gerr = gateRPC(raw)
+	default:
+		wire, gerr = gate(raw)
 	}
 	var aerr error
 	if gerr == nil {
-		aerr = h.pool().AddEvidence(wire)
+		aerr = h.guard("addevidence", func() error { return h.pool().AddEvidence(wire) })
+		if h.dead {
+			return
+		}
 	}
 	real := "admitted"
 	o := h.observe("addevidence", 0, false)
+	if wm != nil && wm.malformed && gerr != nil {
+		// a malformed message was refused by the decoder: counted, nothing else demanded
+		h.logf("add %s [lca] malformed encoding refused: %v", label, firstErr(gerr))
+		h.bounds("addevidence", o, cpSet(h.prev), cpSet(h.prev))
+		h.adopt(o)
+		return
+	}
 	_, nowPending := o.set[k]
 	switch {
 	case wasPending:
@@ -449,7 +475,11 @@ func (h *hist) opAdd(raw types.Evidence, label string) {
 	}
 	h.logf("add %s [%s] ref(valid=%v %s fresh=%v new=%v pending=%v) real=%s err=%v %s", label, kindOf(raw), ok, why, fresh, isNew, wasPending, real, firstErr(gerr, aerr), evDesc(raw))
 	h.c.Count("add/"+kindOf(raw)+"/"+real, 1)
-	h.c.Count("mut/"+kindOf(raw)+"/"+label+"/"+fmt.Sprint(want), 1)
+	if wm != nil {
+		h.c.Count(fmt.Sprintf("wire-add/ref-valid=%v/%s", ok, real), 1)
+	} else {
+		h.c.Count("mut/"+kindOf(raw)+"/"+label+"/"+fmt.Sprint(want), 1)
+	}
 	may := cpSet(h.prev)
 	must := cpSet(h.prev)
 	if want && gerr == nil || wasPending {
@@ -540,7 +570,9 @@ func firstErr(es ...error) error {
 }
 
 // deliverList sends a list through the block-evidence wire format.
-func gateList(list []types.Evidence) (out []types.Evidence, err error) {
+func gateList(list []types.Evidence) ([]types.Evidence, error) { return gateListWith(list, nil) }
+
+func gateListWith(list []types.Evidence, muts []*wireMut) (out []types.Evidence, err error) {
 	defer func() {
 		if r := recover(); r != nil {
 			out, err = nil, fmt.Errorf("panic in protobuf round trip: %v", r)
@@ -550,6 +582,11 @@ func gateList(list []types.Evidence) (out []types.Evidence, err error) {
 	pb, err := d.ToProto()
 	if err != nil {
 		return nil, err
+	}
+	for i := range pb.Evidence {
+		if i < len(muts) {
+			muts[i].apply(&pb.Evidence[i])
+		}
 	}
 	bz, err := pb.Marshal()
 	if err != nil {
@@ -615,16 +652,38 @@ func (h *hist) opCheck(list []types.Evidence, label string) {
 		return
 	}
 	h.cur = fmt.Sprintf("CheckEvidence(%s %s) at height %d", label, descList(list), h.ch.Height())
-	wire, gerr := gateList(list)
+	muts, anyMut, malformed := h.mutsOf(list)
+	if anyMut {
+		label += "/wire"
+	}
+	wire, gerr := gateListWith(list, muts)
+	for i, m := range muts {
+		h.countWire(m, gerr)
+		if gerr == nil {
+			h.adoptVerdict(list[i], wire[i])
+		}
+	}
 	var cerr error
 	if gerr == nil {
-		cerr = h.pool().CheckEvidence(wire)
+		cerr = h.guard("checkevidence", func() error { return h.pool().CheckEvidence(wire) })
+		if h.dead {
+			return
+		}
 	}
 	realAccept := gerr == nil && cerr == nil
 	if gerr != nil {
 		v.s11 = 0 // the pool was not reached
 	}
 	o := h.observe("checkevidence", v.s11, false)
+	if malformed && gerr != nil {
+		h.logf("check %s n=%d malformed encoding refused: %v", label, len(list), firstErr(gerr))
+		h.bounds("checkevidence", o, cpSet(h.prev), cpSet(h.prev))
+		h.adopt(o)
+		return
+	}
+	if anyMut {
+		h.c.Count(fmt.Sprintf("wire-check/ref=%v/real=%v", v.accept, realAccept), 1)
+	}
 	h.logf("check %s n=%d ref=%v %v real=%v err=%v", label, len(list), v.accept, v.reasons, realAccept, firstErr(gerr, cerr))
 	h.c.Count(fmt.Sprintf("check/ref=%v/real=%v", v.accept, realAccept), 1)
 	h.c.Count("checklist/"+label, 1)
@@ -637,6 +696,19 @@ func (h *hist) opCheck(list []types.Evidence, label string) {
 		h.bounds("checkevidence", o, cpSet(h.prev), may)
 	}
 	h.adopt(o)
+}
+
+// mutsOf returns the hostile encoders attached to the items of a list.
+func (h *hist) mutsOf(list []types.Evidence) (muts []*wireMut, any, malformed bool) {
+	muts = make([]*wireMut, len(list))
+	for i, ev := range list {
+		if m := h.wire[ev]; m != nil {
+			muts[i] = m
+			any = true
+			malformed = malformed || m.malformed
+		}
+	}
+	return
 }
 
 // opForwardLunatic offers forward-lunatic evidence.  No verdict is demanded
@@ -857,12 +929,15 @@ func (h *hist) craftedList() ([]types.Evidence, string) {
 			h.lcaVerdict[bytesKey(b.ev)] = lcaInfo{true, "genuine-" + b.kind}
 			list = append(list, b.ev)
 			if h.r.Intn(3) == 0 {
-				name := lcaPerturbations[h.r.Intn(len(lcaPerturbations))]
+				name := h.pickLCAPerturbation()
 				if p := h.perturbLCA(b, name); p != nil {
 					h.lcaVerdict[bytesKey(p)] = lcaInfo{false, name}
 					list = []types.Evidence{p}
 					label = "lca-perturbed"
+					h.maybeWire(p, name)
 				}
+			} else {
+				h.maybeWire(b.ev, "")
 			}
 		}
 	case c == 6:
@@ -939,7 +1014,26 @@ func (h *hist) stepHeight() {
 
 // tryBlock validates the proposed block (with evidence) and applies it if the node accepts it.
 func (h *hist) tryBlock(plan chaingen.StepPlan, label string) bool {
-	list := plan.Evidence
+	// A hostile proposer sends a block whose evidence hash is the one the
+	// receiver computes from the decoded items; so items with a hostile encoder
+	// are put into the proposal in their decoded form and the same (idempotent)
+	// rewriting is applied again to the encoded block.
+	list := append([]types.Evidence{}, plan.Evidence...)
+	muts, anyMut, malformed := h.mutsOf(list)
+	for i, m := range muts {
+		if m == nil {
+			continue
+		}
+		if w, err := gateWith(list[i], m); err == nil {
+			h.adoptVerdict(list[i], w)
+			h.wire[w] = m
+			list[i] = w
+		}
+	}
+	plan.Evidence = list
+	if anyMut {
+		label += "/wire"
+	}
 	v := h.judgeList(list)
 	if h.dead {
 		return false
@@ -965,6 +1059,11 @@ func (h *hist) tryBlock(plan chaingen.StepPlan, label string) bool {
 		if err != nil {
 			return err
 		}
+		for i := range pb.Evidence.Evidence {
+			if i < len(muts) {
+				muts[i].apply(&pb.Evidence.Evidence[i])
+			}
+		}
 		bz, err := pb.Marshal()
 		if err != nil {
 			return err
@@ -976,9 +1075,15 @@ func (h *hist) tryBlock(plan chaingen.StepPlan, label string) bool {
 		blk2, err = types.BlockFromProto(&pb2)
 		return err
 	}()
+	for _, m := range muts {
+		h.countWire(m, gerr)
+	}
 	var verr error
 	if gerr == nil {
-		verr = h.ch.Exec.ValidateBlock(h.ch.State, blk2)
+		verr = h.guard("validateblock", func() error { return h.ch.Exec.ValidateBlock(h.ch.State, blk2) })
+		if h.dead {
+			return false
+		}
 	}
 	realAccept := gerr == nil && verr == nil
 	s11 := v.s11
@@ -986,6 +1091,15 @@ func (h *hist) tryBlock(plan chaingen.StepPlan, label string) bool {
 		s11 = 0 // rejected before the pool is asked
 	}
 	o := h.observe("validateblock", s11, false)
+	if malformed && gerr != nil {
+		h.logf("validateblock %s n=%d malformed encoding refused: %v", label, len(list), firstErr(gerr))
+		h.bounds("validateblock", o, cpSet(h.prev), cpSet(h.prev))
+		h.adopt(o)
+		return false
+	}
+	if anyMut {
+		h.c.Count(fmt.Sprintf("wire-block/ref=%v/real=%v", refAccept, realAccept), 1)
+	}
 	h.logf("validateblock %s n=%d bytes=%d/%d ref=%v %v real=%v err=%v", label, len(list), size, maxBytes, refAccept, v.reasons, realAccept, firstErr(gerr, verr))
 	h.c.Count(fmt.Sprintf("validateblock/ref=%v/real=%v", refAccept, realAccept), 1)
 	h.c.Count("blocklist/"+label, 1)
